@@ -334,6 +334,7 @@ type Oblig struct {
 	presolved bool
 	AltHyps   []*Term // full path condition, tried when the structured (restricted) attempt fails
 	NoAbstract bool
+	AbstractOnly map[string]bool // with NoAbstract: exactly these spec functions stay uninterpreted
 	Abstract  map[string]bool
 	PreHyps   []*Term
 	Inconclusive bool
@@ -358,6 +359,7 @@ type exec struct {
 	frames []*frame
 	objN   int
 	tag    string // alias-case tag appended to obligation names
+	prevSt *State // state before the statement whose proof steps are being run (prev())
 	nameN  map[string]int
 	taint  bool
 	ptrTables map[*Obj]*types.Array // backing stores of []*[N]scalar tables
@@ -956,10 +958,17 @@ func (ex *exec) execStmt(st *State, s ast.Stmt) []*Outcome {
 		ex.fail(s.Pos(), "step budget exceeded")
 	}
 	ex.applyGhost(st, s, "before")
+	var pre *State
+	if ex.stmtHasRules(s) {
+		pre = st.clone() // the state just before the statement, for prev() in its proof steps
+	}
 	outs := ex.execStmt1(st, s)
 	for _, o := range outs {
 		if o.kind == ONormal {
+			saved := ex.prevSt
+			ex.prevSt = pre
 			ex.applyGhost(o.st, s, "after")
+			ex.prevSt = saved
 		}
 	}
 	return outs
